@@ -14,6 +14,10 @@ func deepEquiv(a, b interface{}) string {
 	return deq(reflect.ValueOf(a), reflect.ValueOf(b), "", seen, 0)
 }
 
+// deepIgnore lists bookkeeping fields recorded by the decoder (stream positions); they are compared
+// explicitly where a property talks about positions and ignored where it talks about structure.
+var deepIgnore = map[string]bool{}
+
 func deq(a, b reflect.Value, path string, seen map[[2]uintptr]bool, depth int) string {
 	if depth > 64 {
 		return ""
@@ -107,6 +111,9 @@ func deq(a, b reflect.Value, path string, seen map[[2]uintptr]bool, depth int) s
 		return deq(a.Elem(), b.Elem(), path, seen, depth+1)
 	case reflect.Struct:
 		for i := 0; i < a.NumField(); i++ {
+			if deepIgnore[a.Type().Field(i).Name] {
+				continue
+			}
 			if d := deq(a.Field(i), b.Field(i), path+"."+a.Type().Field(i).Name, seen, depth+1); d != "" {
 				return d
 			}
